@@ -292,6 +292,7 @@ def rand_local(rng):
 
 
 def dyadic_vec(rng, n):
+    assert n > 0
     while True:
         m = int(rng.integers(0, 11))
         v = [int(rng.integers(-1023, 1024)) / (1 << m) if rng.integers(0, 6) else 0.0 for _ in range(n)]
@@ -421,9 +422,10 @@ def generate(rng, tier, outdir):
         elif mode == 2 and n >= 2:
             arities[int(rng.integers(1, n))] = 3 - a
         n_eff = len(arities)
-        c0 = dyadic_vec(rng, n_eff if mode != 3 else max(1, n_eff + int(rng.choice([-1, 1, 2]))))
         if n_eff == 0:
             c0 = dyadic_vec(rng, int(rng.integers(1, 4))) if rng.integers(0, 2) else []
+        else:
+            c0 = dyadic_vec(rng, n_eff if mode != 3 else max(1, n_eff + int(rng.choice([-1, 1, 2]))))
         ops = []
         for _k in range(int(rng.integers(0, 4))):
             good = rng.integers(0, 4) != 0
